@@ -181,7 +181,7 @@ impl Property for P {
                     }
                     did_cleanup |= c;
                 }
-                Event::RunStart { .. } => {}
+                Event::RunStart { .. } | Event::Started { .. } => {}
             }
             Ok(())
         });
